@@ -193,6 +193,7 @@ class Runner:
         for op in plan["ops"]:
             outs = jax.device_get(self._walk(env, policy, jr.key(op["key"])))
             tr.ev("op", op="walk", key=op["key"])
+            freq = {"keyed": [0.0, 0], "aav_a": [0.0, 0]}  # per sampling path: sum of (hits - K*p), number of samples
             for t in range(self.L):
                 s = int(outs["s"][t])
                 mask = np.asarray(outs["mask"][t], dtype=bool)
@@ -307,5 +308,25 @@ class Runner:
                     if mdp.allowed(s, a) and p_m[index_of(a)] <= 0.0:
                         res.fail("C16", "keyed_logprob_of_returned", "sampled_action_has_zero_reported_probability", t=t, s=s, action=np.asarray(a).tolist())
                         break
+                # ... and keyed sampling follows the law the policy reports: how often the most probable JOINT action comes back
+                # (components drawn from correlated noise keep their marginals but not this frequency)
+                star = int(np.argmax(p_m))
+                if 0.1 <= p_m[star] <= 0.9:
+                    for path in freq:
+                        hits = sum(1 for kk in range(K) if index_of(outs[path][t][kk]) == star)
+                        freq[path][0] += hits - K * float(p_m[star])
+                        freq[path][1] += K
+            if not is_q:
+                for path, (dsum, n_s) in freq.items():
+                    if n_s >= 2000:
+                        # Azuma-Hoeffding for a sum of n_s centred indicators: exceeds the bound with probability <= 1e-12 on correct code
+                        bound = math.sqrt(n_s * math.log(2e12) / 2.0)
+                        tr.ev("freq", path=path, n=n_s, dev=round(dsum, 3))
+                        res.events["E.frequency_probe"] += 1
+                        if abs(dsum) > bound:
+                            res.fail("C16", "keyed_samples_follow_reported_law", "joint_action_frequency_differs_from_reported_probability",
+                                     path="policy.__call__" if path == "keyed" else "action_and_value", samples=n_s, excess=dsum / n_s, allowed=bound / n_s)
+                        else:
+                            res.ok("C16", "keyed_samples_follow_reported_law", n_s)
             res.steps += self.L
         return res
